@@ -888,6 +888,9 @@ func (c *evalCtx) call(x *SExpr) (*Val, error) {
 		}
 		dom, _, _, ks, _ := e.mapComps(m)
 		return bo(sSel(sSel(e.get(c.cur, dom, "(Array Int (Array "+ks+" Bool))"), args[0].T), args[1].T))
+	case "allocatedBefore":
+		// the object existed when the function under verification was entered
+		return bo("(and (< 0 " + args[0].T + ") (< " + args[0].T + " $next!0))")
 	case "allocated":
 		return bo("(and (< 0 " + args[0].T + ") (< " + args[0].T + " " + e.next(c.cur) + "))")
 	case "fresh":
